@@ -194,7 +194,7 @@ class WeightedQuadratic(BaseDatafit):
 
     def get_global_lipschitz(self, X, y):
         w_sum = self.sample_weights.sum()
-        return norm(X.T @ np.sqrt(self.sample_weights), ord=2) ** 2 / w_sum
+        return norm(X.T * np.sqrt(self.sample_weights), ord=2) ** 2 / w_sum
 
     def get_global_lipschitz_sparse(self, X_data, X_indptr, X_indices, y):
         return spectral_norm(
